@@ -354,6 +354,20 @@ theorem c11_sound (H : Bytes → Bytes) (h32 : ∀ x, (H x).length = 32) (kind :
   simp only [Option.some.injEq] at hh
   exact c11_binding H h32 p t 0 sp st shp sht hsp hst nocoll (hh.trans ht.symm)
 
+/-- SOUNDNESS at EVERY position: under the hypotheses of `c11_sound`, following any path of reference indices
+simultaneously in the proof body `p` and in `t` — until a pruned branch answering with a stored hash is met — both trees
+have the same number of references at each step and the cells reached `Agree` (so, when neither is such a pruned
+branch: same type, same bit string, same reference count, `c11_binding_bits`).  Every unpruned cell of the proof is
+reached by such a path: it IS the cell of `t` at that position. -/
+theorem c11_sound_everywhere (H : Bytes → Bytes) (h32 : ∀ x, (H x).length = 32) (kind : Int) (bits : Bits) (p t : Cell)
+    (c : PCell) (h : Bytes) (sp st : Spec.SInfo)
+    (wf : TreeWF H (.mk kind bits [p])) (hc : PCell.ofCell H (.mk kind bits [p]) = some c)
+    (hacc : checkProof c h = true)
+    (shp : Shape p) (sht : Shape t) (hsp : specInfo H p = some sp) (hst : specInfo H t = some st) (ht : st.hashAt 0 = h)
+    (nocoll : ∀ x y, x ∈ reprs H p → y ∈ reprs H t → H x = H y → x = y) (π : List Nat) :
+    AgreeAlong H π 0 p t :=
+  agree_along H π 0 p t (c11_sound H h32 kind bits p t c h sp st wf hc hacc shp sht hsp hst ht nocoll).2.2
+
 /-- REJECTION of a changed unpruned cell (root of the proof body; deeper cells through `c11_binding_children`): if the
 root of `p` and the root of `t` differ in type, in any data bit or in the number of references, and neither is a pruned
 branch standing for the other, then `check_proof` raises for `hash t` (same hypotheses as `c11_sound`). -/
@@ -387,6 +401,7 @@ def nodeB : Cell := .mk (-1) [false] [pbB, leafA]
 def mB : Cell := .mk 3 [true, true] [nodeB]
 def treeB : Cell := .mk (-1) [true] [mB, leafA]
 
+/-- the example tree has the shape of a valid bag (hypothesis `Shape` of `c11_binding`) -/
 theorem treeB_shape : Shape treeB := by
   have hm : pmaskOf (bytesToBits ([1, 1] ++ List.replicate 32 7 ++ [0, 0])) = 1 := by decide +kernel
   have hp : Spec.popcount 1 = 1 := by simp [Spec.popcount]
